@@ -235,6 +235,7 @@ def run(prog, chk):
     # exactly what the socket did not take (the decision table of C13.l decides this clause for both properties)
     from . import c13
     c13.client_write_table(prog, chk, "C08.w")
+    window_trims(prog, chk, "C08.t")
 
 
 def _branch_tag(f, w):
@@ -270,3 +271,51 @@ def _flows_to_buffer(f, new_id):
                                 return True
             return False
         return False
+
+
+def window_trims(prog, chk, rid):
+    """removeFront(k) / removeBack(k) as decision tables: for windows of 0, 1 and 4 bytes and k on both sides of the window's length, what
+    is left is the reference queue's remainder - n - k bytes beginning k bytes further on (front) or at the old start (back); nothing
+    when k >= n.  (The send backlog of a server client is drained with removeFront(sent).)"""
+    chk.rule(rid, "FIN: Buffer::removeFront / removeBack evaluated over (window length, count): the remaining window has max(0, n - k) bytes "
+                  "and, when not empty, starts at start + k (front) / start (back)", floor=2)
+    S = 5000
+    for name, front in (("removeFront", True), ("removeBack", False)):
+        fs = [f for f in methods(prog) if f.short == name and f.blocks and len(f.params) == 1]
+        if not fs:
+            raise AnalysisBroken("Buffer::%s(size) not found" % name)
+        f = fs[0]
+        kn = f.params[0]["n"]
+        bad = None
+        n_ev = 0
+        for owned in (1, 0):
+            for n in (0, 1, 4):
+                for k in (0, 1, 2, 3, 4, 5, 9):
+                    val = {kn: k, "this->bufferStart": S, "this->bufferEnd": S + n, "this->buffer": (S - 8) if owned else 0, "&this->_capacity": 77}
+                    seen, end, fv = fin.walk_vals(f, f.entry, val, limit=100)
+                    n_ev += 1
+                    a, b = fv.get("this->bufferStart"), fv.get("this->bufferEnd")
+                    if end not in ("exit",) and isinstance(end, str):
+                        bad = (n, k, "the outcome depends on something else (%s)" % end)
+                        break
+                    if not isinstance(a, int) or not isinstance(b, int):
+                        bad = (n, k, "the resulting window is not determined")
+                        break
+                    left = max(0, n - k)
+                    if b - a != left:
+                        bad = (n, k, "%d byte(s) remain, the reference queue keeps %d" % (b - a, left))
+                        break
+                    if left and a != (S + k if front else S):
+                        bad = (n, k, "the remaining window starts %+d bytes from the old start, required %+d" % (a - S, k if front else 0))
+                        break
+                if bad:
+                    break
+            if bad:
+                break
+        where = "%s:%s" % (f.file, f.line)
+        if bad:
+            chk.bad(rid, f, "window-trim-table", where,
+                    "Buffer::%s(%d) on a window of %d byte(s): %s - pending bytes of a send backlog are dropped (or sent twice) when the socket "
+                    "takes part of it" % (name, bad[1], bad[0], bad[2]), evals=n_ev)
+        else:
+            chk.ok(rid, f, "%s: remainder = max(0, n - k) at the right offset for %d (n, k) pairs" % (name, n_ev), where, "evaluation of the window arithmetic", evals=n_ev)
